@@ -1,12 +1,12 @@
 SPECIFICATION Spec
 CONSTANTS
-  Configs <- QuickConfigs
+  Configs <- ManualConfigs
   MaxMeta = 4
   MaxDemes = 5
   MaxOffer = 2
   MaxLocal = 2
   AllowSelfStop = TRUE
-  AllowManual = FALSE
+  AllowManual = TRUE
   ExactOffers = FALSE
   EmitScripts = FALSE
 CONSTRAINT Bound
@@ -15,14 +15,11 @@ INVARIANT Inv_C07_Structure
 INVARIANT Inv_C07_IdLaw
 INVARIANT Inv_C08_ActiveWithinLimit
 INVARIANT Inv_C05_WindDownAtMostOne
-INVARIANT Inv_C05_DoneImpliesGsc
-INVARIANT Inv_C05_CounterEqualsPerformed
 INVARIANT Inv_C06_SteppedExactlyOnce
 INVARIANT Inv_C06_NewbornHasNotRun
 INVARIANT Inv_C18_HibIff
 INVARIANT Inv_C18_OffMeansNever
 INVARIANT Inv_C18_AsleepMeansFrozen
-INVARIANT Inv_C18_NoIdleUnlessAllAsleep
 INVARIANT Inv_C03_TotalIsSumOfLevels
 INVARIANT Inv_C03_BudgetHard
 INVARIANT Inv_C03_TotalEqualsCalls
@@ -31,6 +28,7 @@ INVARIANT Inv_G_ClockNotAhead
 INVARIANT Inv_G_ClockInSync
 INVARIANT Inv_G_SinceSproutRawNonNeg
 INVARIANT Inv_G_SinceSproutBounded
+INVARIANT Inv_G_WoundDownOneStepLater
 PROPERTY Act_C05_NoSproutAfterGsc
 PROPERTY Act_C06_InactiveFrozen
 PROPERTY Act_C06_StopCauses
